@@ -447,7 +447,7 @@ Section Inv.
   Qed.
 
   Lemma act_save_inv w v f :
-    inv w v -> (aget (ebuf w) f <> None -> member A fx w f = true) -> conf_action A w (ASave f) = true ->
+    inv w v -> (aget (ebuf w) f <> None -> member A fx w f = true) -> conf_action A fx w (ASave f) = true ->
     let w' := fst (act A fx w (ASave f)) in
     k_live_cleared A fx w w' = false -> k_unhidden A fx w w' = false -> k_stale_ref A fx w' = false ->
     k_empty_shortcut A fx w (ASave f) = false ->
@@ -457,7 +457,11 @@ Section Inv.
     assert (Hd : member A fx w f = true) by (apply Hd0; discriminate). clear Hd0.
     unfold conf_action, ahas in Hconf. rewrite Eb in Hconf. cbn [negb orb andb] in Hconf.
     rewrite orb_false_r in Hconf.
-    assert (Hpres : aget (disk w) f <> None) by (destruct (aget (disk w) f); [discriminate|discriminate]).
+    assert (Hpres : aget (disk w) f <> None \/ fix_changed_unknown fx = true).
+    { destruct (fix_changed_unknown fx); [right; reflexivity|left]. cbn [orb] in Hconf.
+      destruct (aget (disk w) f); [discriminate|discriminate]. }
+    assert (Hshape : in_dir A f || fix_outside fx = true).
+    { unfold member in Hd. destruct (in_dir A f); [reflexivity|]. cbn [orb] in *. apply andb_true_iff in Hd. apply Hd. }
     unfold steps. cbn [fold_left fst snd step set_editor disk sv ebuf dirty app].
     rewrite did_save_eq. cbn zeta.
     unfold k_empty_shortcut. rewrite Eb. unfold empty_hit.
@@ -470,7 +474,7 @@ Section Inv.
     set (w' := {| disk := dk; sv := {| pj := fst pc; cache := aset (cache (sv w)) f t; ds := fst (save_push_again d1 f) |};
                   ebuf := ebuf w; dirty := frem f (dirty w) |}).
     intros Hlc Hun Hst Hemp.
-    pose proof (he_changed A fx HA (member A fx w) (disk w) p f t (i_good _ _ I) Hd Hpres Hemp) as HE. cbn zeta in HE. fold dk pc in HE.
+    pose proof (he_changed_gen A fx HA (member A fx w) (disk w) p f t (i_good _ _ I) Hd Hshape Hpres Hemp) as HE. cbn zeta in HE. fold dk pc in HE.
     destruct HE as [HE1 HE2].
     assert (Hidx' : fix_index fx = true -> idx_eq A (fst pc)).
     { intros Hfix. apply handle_events_idx; [exact Hfix|]. apply (i_idx _ _ I). exact Hfix. }
@@ -694,7 +698,7 @@ Section Inv.
   Qed.
 
   Lemma act_watched_inv w v l :
-    inv w v -> conf_action A w (AWatched l) = true ->
+    inv w v -> conf_action A fx w (AWatched l) = true ->
     let w' := fst (act A fx w (AWatched l)) in
     k_live_cleared A fx w w' = false -> k_unhidden A fx w w' = false -> k_watched_dirty A fx w (AWatched l) = false ->
     k_stale_ref A fx w' = false -> k_empty_shortcut A fx w (AWatched l) = false ->
@@ -725,7 +729,7 @@ Section Inv.
       { intros Hfix. apply handle_events_idx; [exact Hfix|]. apply (i_idx _ _ I). exact Hfix. }
       apply stale_ref_false in Hst; [|exact Hidx']. cbn [sv pj] in Hst.
       destruct (items_disk_spec l (disk w) Hnd) as [D1 D2]. fold dk' in D1, D2.
-      assert (B : batch_ok A (disk w) dk' (map (witem_ev A) l)).
+      assert (B : batch_ok A fx (disk w) dk' (map (witem_ev A) l)).
       { constructor.
         - rewrite map_fst_ev. exact Hnd.
         - intros f k Hin. destruct (in_ev_item l f k Hin) as [i [Hi [<- _]]]. apply Hdir. exact Hi.
@@ -734,6 +738,7 @@ Section Inv.
         - intros f Hin. destruct (in_ev_item l f _ Hin) as [i [Hi [Hf [t Hit]]]]. split.
           + rewrite <- Hf, (D2 _ Hi), Hit. discriminate.
           + rewrite forallb_forall in Hwm. specialize (Hwm _ Hi). rewrite Hit in Hwm. unfold ahas in Hwm.
+            destruct (fix_changed_unknown fx); [right; reflexivity|left]. cbn [orb] in Hwm.
             destruct (aget (disk w) f); [discriminate|discriminate].
         - intros f Hin. destruct (in_ev_item l f _ Hin) as [i [Hi [Hf Hit]]]. rewrite <- Hf, (D2 _ Hi), Hit. reflexivity. }
       assert (Hemp' : forall f k t, In (f, k) (map (witem_ev A) l) -> aget dk' f = Some t -> empty_hit_p A fx (pj (sv w)) f t = false).
@@ -1096,7 +1101,7 @@ Section Inv.
 
   (* ---------- one conformant, class-free action keeps the invariant ---------- *)
   Lemma act_inv w v a :
-    inv w v -> conf_action A w a = true -> classes_step A fx w a (fst (act A fx w a)) = [] ->
+    inv w v -> conf_action A fx w a = true -> classes_step A fx w a (fst (act A fx w a)) = [] ->
     inv (fst (act A fx w a)) (vapply v (snd (act A fx w a))).
   Proof.
     intros I Hconf Hcl. apply classes_step_nil in Hcl.
@@ -1117,12 +1122,12 @@ Section Inv.
   Qed.
 
   Lemma history_inv h : forall w v,
-    inv w v -> scan_history A fx (conf_action A) w h = (true, []) ->
+    inv w v -> scan_history A fx (conf_action A fx) w h = (true, []) ->
     inv (fst (run_from A fx (w, []) h)) (vapply v (snd (run_from A fx (w, []) h))).
   Proof.
     induction h as [|a h IH]; intros w v I Hscan; [exact I|].
     cbn [scan_history] in Hscan.
-    destruct (scan_history A fx (conf_action A) (fst (act A fx w a)) h) as [c ks] eqn:Es.
+    destruct (scan_history A fx (conf_action A fx) (fst (act A fx w a)) h) as [c ks] eqn:Es.
     injection Hscan as Hc Hk. apply andb_true_iff in Hc as [Hc1 Hc2]. subst c.
     apply app_nil_inv in Hk as [Hk1 Hk2]. subst ks.
     pose proof (act_inv w v a I Hc1 Hk1) as I1.
@@ -1153,7 +1158,7 @@ Section Inv.
     forall f, Permutation (view (snd (run A fx dk h)) f) (demanded A fx (fst (run A fx dk h)) f).
   Proof.
     intros Hg f. unfold guard, conformant, classes in Hg. apply andb_true_iff in Hg as [Hc Hk].
-    destruct (scan_history A fx (conf_action A) (fst (init_world A fx dk)) h) as [c ks] eqn:Es. cbn [fst snd] in *. subst c.
+    destruct (scan_history A fx (conf_action A fx) (fst (init_world A fx dk)) h) as [c ks] eqn:Es. cbn [fst snd] in *. subst c.
     destruct ks; [|discriminate].
     pose proof (history_inv h _ _ (init_inv dk) Es) as I.
     unfold run. destruct (init_world A fx dk) as [w0 ps0] eqn:E0. cbn [fst snd] in *.
@@ -1174,7 +1179,7 @@ Section Inv.
     guard A fx dk h = true -> inv (fst (run A fx dk h)) (vapply [] (snd (run A fx dk h))).
   Proof.
     intros Hg. unfold guard, conformant, classes in Hg. apply andb_true_iff in Hg as [Hc Hk].
-    destruct (scan_history A fx (conf_action A) (fst (init_world A fx dk)) h) as [c ks] eqn:Es. cbn [fst snd] in *. subst c.
+    destruct (scan_history A fx (conf_action A fx) (fst (init_world A fx dk)) h) as [c ks] eqn:Es. cbn [fst snd] in *. subst c.
     destruct ks; [|discriminate].
     pose proof (history_inv h _ _ (init_inv dk) Es) as I.
     unfold run. destruct (init_world A fx dk) as [w0 ps0] eqn:E0. cbn [fst snd] in *.
@@ -1294,7 +1299,17 @@ Qed.
 Lemma member_plain_old (A : analysis) (fx : fixes) (w : world A) : fix_outside fx = false -> forall g, member A fx w g = in_dir A g.
 Proof. intros H g. unfold member. rewrite H. apply orb_false_r. Qed.
 
-(* ---------- the deployed model: all eight repairs ---------- *)
+(* ---------- the changed-unknown repair weakens the conformance predicate ---------- *)
+Lemma conformance_widened (A : analysis) (w : world A) (a : action A) :
+  conf_action A round4 w a = true -> conf_action A deployed w a = true.
+Proof.
+  destruct a as [f|f t|f|f|l|e|f t]; try (intros H; exact H); [reflexivity|].
+  unfold conf_action. cbn [fix_changed_unknown round4 deployed orb]. intros H.
+  apply andb_true_iff in H as [H _]. rewrite H. cbn [andb].
+  apply forallb_forall. intros i _. destruct i; reflexivity.
+Qed.
+
+(* ---------- the deployed model: all nine repairs ---------- *)
 Lemma deployed_guard (A : analysis) (dk : amap (text A)) (h : list (action A)) :
   conformant A deployed dk h = true -> guard A deployed dk h = true.
 Proof. intros Hc. apply repaired_guard; [reflexivity|left; reflexivity|left; reflexivity|exact Hc]. Qed.
@@ -1323,11 +1338,11 @@ Section Reopen.
     apply IH. pose proof (act_open_dirty (fst wp) f H) as HH. destruct (act A fx (fst wp) (AOpen f)). exact HH.
   Qed.
 
-  Lemma opens_conformant l : forall (w : world A), fst (scan_history A fx (conf_action A) w (map (@AOpen A) l)) = true.
+  Lemma opens_conformant l : forall (w : world A), fst (scan_history A fx (conf_action A fx) w (map (@AOpen A) l)) = true.
   Proof.
     induction l as [|f l IH]; intros w; [reflexivity|]. cbn [map scan_history].
     specialize (IH (fst (act A fx w (AOpen f)))).
-    destruct (scan_history A fx (conf_action A) (fst (act A fx w (AOpen f))) (map (@AOpen A) l)) as [c ks].
+    destruct (scan_history A fx (conf_action A fx) (fst (act A fx w (AOpen f))) (map (@AOpen A) l)) as [c ks].
     cbn [fst] in *. subst c. reflexivity.
   Qed.
 End Reopen.
